@@ -78,6 +78,11 @@ def _case(draw, tier):
         r["enc"] = first["enc"]
         rounds.append(r)
     defaults = (not poolreg.is_wrapper(name)) and draw(st.booleans())
+    if (not defaults) and ent["alt"] and not poolreg.is_wrapper(name) \
+            and draw(st.booleans()):
+        ai = draw(st.integers(0, len(ent["alt"]) - 1))
+        for r in rounds:
+            r["opts"]["alt_init"] = ai
     model_state = draw(st.sampled_from(["fresh", "fresh", "prefit",
                                         "prefit_nofit"]))
     if ent["model"] is None or ent["model"][0] == "discriminator":
